@@ -304,6 +304,39 @@ static void exprEntryPoints(World& w, const std::string& text, int hintIdx, cons
     emit("c04 audit " + tag, r.first);
     if (tie) emit("c04m audit " + mtag, r.second);
   }
+  // the same analyser objects asked again for the SAME text: each call has to report failure iff IT logged a critical
+  // error (seeded change C04-4: a parse cache returns early and leaves the log of the previous analysis in place)
+  emit("c04 again " + tag, vh::forked([&] {
+    const auto& schema = w.model.RSLang();
+    rslang::Auditor a{ schema, schema.VCContext(), schema.ASTContext() };
+    std::string out;
+    for (int round = 0; round < 3; ++round) {
+      const bool ok = a.CheckType(text, hint);
+      auto r = verdict(ok, a.Errors(), text, a.parser.syntax == rslang::Syntax::ASCII);
+      if (ok) {
+        const bool vok = a.CheckValue();
+        const auto second = verdict(vok, a.Errors(), text, a.parser.syntax == rslang::Syntax::ASCII);
+        if (second != "1") r += "/value:" + second;
+      }
+      if (r != "1") { out = "round" + std::to_string(round) + ":" + r; break; }
+    }
+    if (out.empty()) {
+      rslang::Parser p{};
+      for (int round = 0; round < 2 && out.empty(); ++round) {
+        const bool ok = p.Parse(text, hint);
+        const auto r = verdict(ok, p.Errors(), text, p.syntax == rslang::Syntax::ASCII);
+        if (r != "1") out = "parse-round" + std::to_string(round) + ":" + r;
+      }
+    }
+    if (out.empty()) {
+      rslang::Interpreter in{ schema, schema.ASTContext(), w.data() };
+      for (int round = 0; round < 2 && out.empty() && !text.empty(); ++round) {
+        const auto v = in.Evaluate(text, hint);
+        const auto r = verdict(v.has_value(), in.Errors(), text, in.parser.syntax == rslang::Syntax::ASCII);
+        if (r != "1") out = "eval-round" + std::to_string(round) + ":" + r;
+      }
+    }
+    return out.empty() ? std::string("1") : out; }, 40));
   {
     const auto r = splitDetail(vh::forked([&] {
       const auto& schema = w.model.RSLang();
